@@ -201,7 +201,11 @@ Record blk := mkBlk { content : Hdr; memo : V }.
 Inductive bop :=
 | BSet (h : Hdr)             (* any setter: the field changes, invalidateHash() *)
 | BGetHash
-| BPrecalc (v : V).          (* setPrecalculatedHash / deserialisation with a supplied hash *)
+| BPrecalc (v : V)           (* setPrecalculatedHash *)
+| BDeser (h : Hdr) (v : V)   (* DeserializeFromRaw / DeserializeFromVbkEncoding INTO THIS OBJECT: every header field is
+                                overwritten and, as coded, block.hash_ = hash unconditionally, where [hash] is the
+                                supplied precalculated hash or the all-zero default *)
+| BAssign (src : blk).       (* copy / move assignment from another block: fields and memo are taken over *)
 
 (** getHash: if (hash_ == empty) hash_ = calculateHash(); return hash_.  [hf] is the hash function in use
     (progPowHash through its caches; transparent by the theorems of this file) *)
@@ -210,6 +214,8 @@ Definition blk_step (hf : Hdr -> V) (o : bop) (b : blk) : option V * blk :=
   | BSet h => (None, mkBlk h zero)
   | BGetHash => let m := if is_zero (memo b) then hf (content b) else memo b in (Some m, mkBlk (content b) m)
   | BPrecalc v => (None, mkBlk (content b) v)
+  | BDeser h v => (None, mkBlk h v)
+  | BAssign src => (None, src)
   end.
 
 Fixpoint blk_run (hf : Hdr -> V) (ops : list bop) (b : blk) : list (option V) * blk :=
